@@ -232,7 +232,7 @@ func templateFacts(repo string) {
 	sort.Slice(tpls, func(i, j int) bool { return tpls[i].Name() < tpls[j].Name() })
 
 	const pfx = "_html_template_"
-	var holes, skel, names, texts, longTexts []string
+	var holes, skel, names, texts, longTexts, longBytes []string
 	for _, tt := range tpls {
 		names = append(names, tt.Name())
 		var walk func(n parse.Node, d int)
@@ -275,6 +275,15 @@ func templateFacts(repo string) {
 					texts = append(texts, fmt.Sprintf("(%s, %d, %s)", leanStr(tt.Name()), textNo, leanBytes(string(x.Text))))
 				} else {
 					longTexts = append(longTexts, fmt.Sprintf("(%s, %d, %d)", leanStr(tt.Name()), textNo, len(x.Text)))
+					var chunks []string
+					for i := 0; i < len(x.Text); i += 64 {
+						j := i + 64
+						if j > len(x.Text) {
+							j = len(x.Text)
+						}
+						chunks = append(chunks, leanBytes(string(x.Text[i:j])))
+					}
+					longBytes = append(longBytes, fmt.Sprintf("(%s, %d, %s)", leanStr(tt.Name()), textNo, strings.Join(chunks, " ++\n    ")))
 				}
 				textNo++
 			case *parse.IfNode:
@@ -317,5 +326,6 @@ func templateFacts(repo string) {
 	fmt.Fprintf(&out, "/-- every outputting action of indexHTML: (template, pipeline as written, escapers appended by html/template) -/\ndef templateHoles : List (String × String × List String) := [\n  %s]\n", strings.Join(holes, ",\n  "))
 	fmt.Fprintf(&out, "/-- literal text nodes (after trimming) of at most 120 bytes: (template, ordinal among the template's text nodes, bytes) -/\ndef templateTexts : List (String × Nat × List UInt8) := [\n  %s]\n", strings.Join(texts, ",\n  "))
 	fmt.Fprintf(&out, "/-- longer text nodes (style sheet, legend): (template, ordinal, length) -/\ndef templateLongTexts : List (String × Nat × Nat) := [%s]\n", strings.Join(longTexts, ", "))
+	fmt.Fprintf(&out, "/-- the bytes of the longer text nodes: (template, ordinal, bytes) -/\ndef templateLongTextBytes : List (String × Nat × List UInt8) := [\n  %s]\n", strings.Join(longBytes, ",\n  "))
 	fmt.Fprintf(&out, "/-- the escaped parse trees, flattened: (template, depth, node) -/\ndef templateSkeleton : List (String × Nat × String) := [\n  %s]\n\n", strings.Join(skel, ",\n  "))
 }
